@@ -79,12 +79,12 @@ sec9 = ["## 9. Seeded changes: which check catches what", "",
  "chosen while building had been shaped by the defects found while building. Every miss pointed at a dimension the specification had left out (a",
  "spelling of a prefix, how a registration is written, a value class, a second application, a recycled buffer, a failing handler, a request in the middle",
  "of the program, another component's clock, the collector's gap, call sequences on a holder ...), and the *specification* -- not just the driver -- was",
- "extended until the change was caught; no check was loosened. Extending it found five more genuine defects on the way (`f401b3b`, `6d15e73`, `STARFIX`, `RESETFIX`,",
+ "extended until the change was caught; no check was loosened. Extending it found five more genuine defects on the way (`f401b3b`, `6d15e73`, `b7b6f7a`, `fb5d6ec`,",
  "`C18-set-reorders-other-values`). Final state: every live change is caught by the quick tier (table below), 3 are neutralised by my own fixes.",
  "The notes column says what was added.", "",
  "| seed | change (one line) | caught by (quick tier) | rc | violations | notes |", "|---|---|---|---|---|---|"]
 NOTES = {
- 'C02E': 'missed at first; every endpoint route is followed by its escape twin (found `STARFIX`)',
+ 'C02E': 'missed at first; every endpoint route is followed by its escape twin (found `b7b6f7a`)',
  'C02F': 'missed at first; a custom constraint registered under the built-in name `float`',
  'C03E': 'caught as the check stood', 'C03F': 'caught as the check stood',
  'C06E': 'missed at first; shape `unmatched`, accessor `routepath`',
